@@ -210,4 +210,17 @@ def srcAfter (n : Nat) (s : Src) : Src := (runSrc n 0 s).2
 /-- the emissions a source hands out on day `n` -/
 def handedOutOn (n : Nat) (s : Src) : List EmId := (activateSrc (n : Int) (srcAfter n s)).1
 
+/-! ### the next simulation number on the same infrastructure object -/
+
+/-- `set_pregen_emissions` (sources.py: `_generated_emissions.clear()` + one assignment): the pending
+lists of the next simulation number replace the old ones; the cursor `_next_emission` and the
+emissions the components hold are NOT reset -/
+def loadScenario (lists : List (List EmId)) (inf : Infra) : Infra :=
+  List.zipWith (fun l s => { s with src := { s.src with pending := l } }) lists inf
+
+/-- an infrastructure object on which no program has ever run: nothing held, no cursor -/
+def fresh (g : Infra) : Prop := ∀ s ∈ g, s.held = [] ∧ s.src.next = none
+
+instance (g : Infra) : Decidable (fresh g) := by unfold fresh; infer_instance
+
 end LdarModel.Heap
